@@ -602,9 +602,9 @@ func (f *memFile) Write(p []byte) (int, error) {
 		n := copy(f.n.data[f.pos:], p)
 		f.pos += n
 		p = p[n:]
-	} else if f.pos > len(f.n.data) {
+	} else if f.pos > len(f.n.data) && len(p) > 0 {
 		// Write permits the creation of holes, if we've seek'ed past the
-		// existing end of file.
+		// existing end of file. Writing zero bytes does not extend the file.
 		if f.pos <= cap(f.n.data) {
 			oldLen := len(f.n.data)
 			f.n.data = f.n.data[:f.pos]
